@@ -325,7 +325,33 @@ fn oracle(lib: &LefLibrary, f: &Flags, ctx: &mut Ctx) -> Result<(), String> {
             ctx.label("layer names differing only in letter case");
         }
     }
-    let res = raw::lef::LefImporter::import(lib, None);
+    // the caller may hand over a layer set of its own (shared between imports): one time in three it already
+    // holds some of the LEF's layer names, under numbers of the caller's choosing
+    // (which, is derived from the library's content)
+    let mut h = hash_of(&format!("{:?}", lib));
+    let mut bit = move || {
+        h = h.rotate_left(7).wrapping_mul(0x9E37_79B9_7F4A_7C15);
+        h & 1 == 1
+    };
+    let provided: Option<raw::utils::Ptr<raw::Layers>> = if bit() && bit() {
+        let mut ls = raw::Layers::default();
+        let mut names: Vec<String> = lib.macros.iter().flat_map(|m| m.pins.iter().flat_map(|p| p.ports.iter().flat_map(|q| q.layers.iter())).chain(m.obs.iter())).map(|l| l.layer_name.clone()).collect();
+        names.sort();
+        names.dedup();
+        for (k, n) in names.iter().enumerate() {
+            if bit() {
+                ls.add(raw::Layer::new(700 + k as i16, n.clone()));
+            }
+        }
+        if bit() {
+            ls.add(raw::Layer::new(900, "boundary"));
+        }
+        ctx.label("import into a layer set provided by the caller");
+        Some(raw::utils::Ptr::new(ls))
+    } else {
+        None
+    };
+    let res = raw::lef::LefImporter::import(lib, provided);
     let rl = match res {
         Err(e) => {
             let msg = format!("{:?}", e);
